@@ -67,7 +67,7 @@ pub fn single(n: usize, buf: usize, seed: u64) -> Verdict {
 pub fn multi(n: usize, m: usize, k: usize, buf: usize, seed: u64) -> Verdict {
     let delta = sym_nonzero("delta");
     let eta = sym_nonzero("eta");
-    let (ck, tau) = keys(n, m, seed);
+    let (ck, tau) = keys(n + k, m, seed);
     let vk = VerifierKey::from(&ck);
     let cks = CommitterKeyStream::from(&ck);
     let pts: Vec<SF> = (0..m).map(|j| sym(&format!("x{}", j))).collect();
@@ -82,19 +82,22 @@ pub fn multi(n: usize, m: usize, k: usize, buf: usize, seed: u64) -> Verdict {
             return Verdict::Hold;
         }
     }
-    let polys: Vec<Vec<SF>> = (0..k).map(|i| (0..n).map(|j| sym(&format!("f{}_{}", i, j))).collect()).collect();
+    // polynomial i has n + i coefficients (the batch mixes lengths, the first one is the shortest);
+    // with k >= 3 the first one even has fewer coefficients than there are points
+    let polys: Vec<Vec<SF>> = (0..k).map(|i| { let len = if k >= 3 && i == 0 { m.saturating_sub(1).max(1) } else { n + i }; (0..len).map(|j| sym(&format!("f{}_{}", i, j))).collect() }).collect();
     let comms = ck.batch_commit(&polys);
-    // time vs space on the first polynomial
-    let mut rev = polys[0].clone();
+    // time vs space on the last (longest) polynomial
+    let p0 = polys[k - 1].clone();
+    let mut rev = p0.clone();
     rev.reverse();
     let s = rev.as_slice();
-    let pf_t = ck.open_multi_points(&polys[0], &pts);
+    let pf_t = ck.open_multi_points(&p0, &pts);
     let (rem, pf_s) = cks.open_multi_points(&s, &pts, buf);
     if pf_t != pf_s {
         return Verdict::viol("multi-proof-differs", "time and space multi-point proofs differ");
     }
     for x in &pts {
-        if eval_be(&rem, *x) != horner(&polys[0], *x) {
+        if eval_be(&rem, *x) != horner(&p0, *x) {
             return Verdict::viol("remainder-wrong", "space remainder does not interpolate the evaluations");
         }
     }
